@@ -860,6 +860,9 @@ func (s *Sys) construct(clause string) *Sys {
 		}
 		return s
 	}
+	if p.X("via_fork") == 1 && s.constructViaFork(stage, clause, freq) {
+		return s
+	}
 	switch stage {
 	case "Map":
 		s.outErr(pipe.Map(ctx, s.input(0), shared(e, "pipe.elem."+p.Mode, func() pipe.F[int, int] { return pipeF(p.Mode, s.elemFn()) })))
@@ -939,6 +942,68 @@ func (s *Sys) construct(clause string) *Sys {
 		panic("unknown stage " + stage)
 	}
 	return s
+}
+
+// constructViaFork builds the stages that package fork re-exports
+// (fork.Take, fork.TakeWhile, fork.Seq, fork.ToSeq, fork.Join,
+// fork.Throttling, fork.Emit, fork.Unfold, fork.StdErr) through those
+// entry points: same documented behaviour, other code path.
+func (s *Sys) constructViaFork(stage, clause string, freq time.Duration) bool {
+	e, p := s.E, s.P
+	ctx := e.Ctx
+	switch stage {
+	case "StdErr":
+		out, exx := pipe.Map(ctx, s.input(0), pipeF(p.Mode, s.elemFn()))
+		s.consumeOut(fork.StdErr(out, exx))
+	case "Take":
+		s.consumeOut(fork.Take(ctx, s.input(0), p.N))
+	case "TakeWhile":
+		s.consumeOut(fork.TakeWhile(ctx, s.input(0), forkF("lift", s.predFn())))
+	case "Seq":
+		var xs []int
+		if len(p.Inputs) > 0 {
+			xs = p.Inputs[0]
+		}
+		buf := append([]int(nil), xs...)
+		ch := fork.Seq(buf...)
+		for i := range buf {
+			buf[i] = -7777 - i
+		}
+		s.consumeOut(ch)
+	case "ToSeq":
+		in := s.input(0)
+		simrt.GoEnv("toseq"+s.sfx, func() {
+			r := fork.ToSeq[int](in)
+			if !simrt.Free() {
+				s.ToSeqRes, s.ToSeqDone = r, true
+			}
+		})
+	case "Join":
+		var ins []<-chan int
+		for i := range p.Inputs {
+			ins = append(ins, s.input(i))
+		}
+		if p.X("dup_input") == 1 && len(ins) > 0 {
+			ins = append(ins, ins[0])
+		}
+		s.joinChk = joinOnline(s, clause+".prefix")
+		joined := fork.Join(ctx, ins...)
+		closed := make(chan int)
+		close(closed)
+		for i := range ins {
+			ins[i] = closed
+		}
+		s.consumeOut(joined)
+	case "Throttling":
+		s.consumeOut(fork.Throttling(ctx, s.input(0), p.N, freq))
+	case "Emit":
+		s.outErr(fork.Emit(ctx, p.Cap, freq, forkF(p.Mode, s.genFn(false))))
+	case "Unfold":
+		s.outErr(fork.Unfold(ctx, p.Cap, p.FnArg, forkF(p.Mode, s.genFn(true))))
+	default:
+		return false
+	}
+	return true
 }
 
 // ----------------------------------------------------------- shared clauses
